@@ -6,7 +6,8 @@
  * Part 2 (only when C16_VARIANT_NAME is defined, i.e. inside a variant TU): the wrappers around
  * whatever implementation of <aws/common/math.h> that TU has pulled in, and the exported table.
  *
- * Every helper is evaluated in two compilation contexts per TU:
+ * Every helper is evaluated in two compilation contexts per TU (the assembly-backed ones in a third, "pressure",
+ * see below):
  *   thin  - one address-taken function per helper whose whole body is the call (arguments arrive in the
  *           ABI registers; at -O2/-O3 the static-inline helper is inlined into it)
  *   block - one loop over operand arrays with ALL helpers inlined into the same body (high register
@@ -66,6 +67,18 @@ struct c16_oconv {
     uint64_t rem;
 };
 
+/* "pressure" context: the helper is inlined between two register barriers that hold C16_NPRESS + 2 values in
+ * general registers, so a register the inline assembly clobbers without declaring it very likely carries a live
+ * value (kin[] must come back unchanged in kout[]) */
+#define C16_NPRESS 11
+enum { P_ADD_U64_SAT, P_ADD_U64_CHK, P_MUL_U64_SAT, P_MUL_U64_CHK, P_ADD_U32_SAT, P_ADD_U32_CHK, P_MUL_U32_SAT, P_MUL_U32_CHK,
+       P_CONV_U64, P_N };
+struct c16_opress {
+    uint64_t val; /* saturating result / *r (pre-filled with the sentinel) / converted ticks */
+    int32_t rc;   /* checked forms */
+    uint64_t kout[C16_NPRESS];
+};
+
 struct c16_variant {
     const char *name;
     const char *what;
@@ -82,6 +95,8 @@ struct c16_variant {
     int (*round_up_pow2)(uint64_t, uint64_t *);
     uint64_t (*conv_u64)(uint64_t ticks, uint64_t old_f, uint64_t new_f, uint64_t *rem);
     uint64_t (*conv_unit)(uint64_t ticks, uint64_t from, uint64_t to, uint64_t *rem);
+    /* pressure context: c is only used by P_CONV_U64 (ticks=a, old=b, new=c) */
+    void (*press[P_N])(uint64_t a, uint64_t b, uint64_t c, const uint64_t *kin, struct c16_opress *o);
     /* block context */
     void (*blk64)(const uint64_t *a, const uint64_t *b, size_t n, struct c16_o64 *o);
     void (*blk32)(const uint32_t *a, const uint32_t *b, size_t n, struct c16_o32 *o);
@@ -181,6 +196,36 @@ static uint64_t thin_conv_u64(uint64_t t, uint64_t o, uint64_t n, uint64_t *rem)
 static uint64_t thin_conv_unit(uint64_t t, uint64_t from, uint64_t to, uint64_t *rem) {
     return aws_timestamp_convert(t, (enum aws_timestamp_unit)from, (enum aws_timestamp_unit)to, rem);
 }
+
+/* ---- pressure context */
+#    define C16_KLIST(X) X(0) X(1) X(2) X(3) X(4) X(5) X(6) X(7) X(8) X(9) X(10)
+#    define C16_KLOAD(i) uint64_t k##i = kin[i];
+#    define C16_KSTORE(i) o->kout[i] = k##i;
+#    define C16_KBAR                                                                                                   \
+        "+r"(k0), "+r"(k1), "+r"(k2), "+r"(k3), "+r"(k4), "+r"(k5), "+r"(k6), "+r"(k7), "+r"(k8), "+r"(k9), "+r"(k10)
+#    define C16_PRESS(tag, T, BODY)                                                                                    \
+        static void press_##tag(uint64_t a_, uint64_t b_, uint64_t c_, const uint64_t *kin, struct c16_opress *o) {    \
+            C16_KLIST(C16_KLOAD)                                                                                       \
+            T a = (T)a_, b = (T)b_;                                                                                    \
+            T val = (T)C16_SENTINEL64;                                                                                 \
+            int rc = 0;                                                                                                \
+            (void)c_;                                                                                                  \
+            __asm__ volatile("" : C16_KBAR, "+r"(a), "+r"(b));                                                         \
+            BODY;                                                                                                      \
+            __asm__ volatile("" : C16_KBAR, "+r"(val), "+r"(rc));                                                      \
+            C16_KLIST(C16_KSTORE)                                                                                      \
+            o->val = (uint64_t)val;                                                                                    \
+            o->rc = rc;                                                                                                \
+        }
+C16_PRESS(add_u64_sat, uint64_t, val = aws_add_u64_saturating(a, b))
+C16_PRESS(add_u64_chk, uint64_t, rc = aws_add_u64_checked(a, b, &val))
+C16_PRESS(mul_u64_sat, uint64_t, val = aws_mul_u64_saturating(a, b))
+C16_PRESS(mul_u64_chk, uint64_t, rc = aws_mul_u64_checked(a, b, &val))
+C16_PRESS(add_u32_sat, uint32_t, val = aws_add_u32_saturating(a, b))
+C16_PRESS(add_u32_chk, uint32_t, rc = aws_add_u32_checked(a, b, &val))
+C16_PRESS(mul_u32_sat, uint32_t, val = aws_mul_u32_saturating(a, b))
+C16_PRESS(mul_u32_chk, uint32_t, rc = aws_mul_u32_checked(a, b, &val))
+C16_PRESS(conv_u64, uint64_t, val = aws_timestamp_convert_u64(a, b, c_, NULL))
 
 /* ---- block context */
 static void blk64(const uint64_t *a, const uint64_t *b, size_t n, struct c16_o64 *o) {
@@ -333,6 +378,8 @@ const struct c16_variant C16_CAT(c16_variant_, C16_VARIANT_NAME) = {
     .round_up_pow2 = thin_round_up_pow2,
     .conv_u64 = thin_conv_u64,
     .conv_unit = thin_conv_unit,
+    .press = {press_add_u64_sat, press_add_u64_chk, press_mul_u64_sat, press_mul_u64_chk, press_add_u32_sat,
+              press_add_u32_chk, press_mul_u32_sat, press_mul_u32_chk, press_conv_u64},
     .blk64 = blk64,
     .blk32 = blk32,
     .blksmall = blksmall,
